@@ -210,6 +210,15 @@ theorem useLoop (H : Hyp a T) (R : Ptr → Rat) {F P h : List Word} {L nu0 : Nat
 def CN (T : Table) (F P h : List Word) (Lw : Nat) : Prop :=
   (Lw < F.length ∧ ∀ x, T.lookup (pre F Lw ++ P ++ h ++ [x]) = none) ∨ (0 < Lw ∧ T.xr (pre F (Lw-1) ++ P ++ h) = false)
 
+/-- … remembering, for the first kind of witness, that the stopped pointer is one of the `L` pointers of the call -/
+def CNL (T : Table) (F P h : List Word) (L Lw : Nat) : Prop :=
+  (Lw < L ∧ Lw < F.length ∧ ∀ x, T.lookup (pre F Lw ++ P ++ h ++ [x]) = none) ∨ (0 < Lw ∧ T.xr (pre F (Lw-1) ++ P ++ h) = false)
+
+theorem CNL.toCN {T : Table} {F P h : List Word} {L Lw : Nat} (c : CNL T F P h L Lw) : CN T F P h Lw := by
+  rcases c with ⟨_, h1, h2⟩ | h
+  · exact Or.inl ⟨h1, h2⟩
+  · exact Or.inr h
+
 theorem range_drop_succ (i0 i : Nat) (hi : i0 ≤ i) (f : Nat → Ptr) :
     ((List.range (i+1)).drop i0).map f = ((List.range i).drop i0).map f ++ [f i] := by
   rw [List.range_succ, List.drop_append_of_le_length (by simpa using hi), List.map_append]
@@ -235,7 +244,7 @@ theorem writeLoop (H : Hyp a T) (R : Ptr → Rat) {F P h : List Word} {L nu0 : N
           v.adjust + dsum (openTerm R F P h) i (Lw - i) + dsum (doneTerm a R F P h) Lw (t - Lw) ∧
         (((extendLoopWrite T R seen (h.take nu0) nu0 ps j v).1.makeFull = false ∧ Lw = L ∧ t = L ∧
             (extendLoopWrite T R seen (h.take nu0) nu0 ps j v).1.nextUse = nu0) ∨
-         ((extendLoopWrite T R seen (h.take nu0) nu0 ps j v).1.makeFull = true ∧ CN T F P h Lw)) := by
+         ((extendLoopWrite T R seen (h.take nu0) nu0 ps j v).1.makeFull = true ∧ CNL T F P h L Lw)) := by
   intro ps
   induction ps with
   | nil =>
@@ -311,7 +320,7 @@ theorem writeLoop (H : Hyp a T) (R : Ptr → Rat) {F P h : List Word} {L nu0 : N
             have hxl' : t.extendsLeft = false := by unfold Table.xl at h1; rw [ht] at h1; simpa using h1
             exact hne (H.ok.xl_sound _ x t ht hxl')
       refine ⟨i, i+1, Nat.le_refl _, by omega, by omega, by omega, hb0, hwr, hxl, hps'.symm ▸ rfl, by show j + 1 + seen = _; omega,
-        hnext _ _ _, ?_, Or.inr ⟨(by first | rfl | trivial), Or.inl ⟨hiw, hcn⟩⟩⟩
+        hnext _ _ _, ?_, Or.inr ⟨(by first | rfl | trivial), Or.inl ⟨hiL, hiw, hcn⟩⟩⟩
       show v.adjust + ret.prob = _
       have e1 : i + 1 - i = 1 := by omega
       rw [Nat.sub_self, e1]
